@@ -118,8 +118,14 @@ def gen_program(pq, rng, kind, d, cutoff):
             if rng.random() < 0.25:
                 th = u(0.1, 1.2)
                 opts = [(lambda: pq.Attenuator(theta=th, mean_thermal_excitation=float(rng.choice([0.0, 0.3]))), m1)];
-            if rng.random() < 0.12 and d >= 2:
+            if rng.random() < 0.15 and d >= 2:
                 opts = [(lambda: pq.HomodyneMeasurement(phi=u(0, 3)), m1), (lambda: pq.HeterodyneMeasurement(), m1)]
+                if d >= 3:
+                    # several modes measured at once, one mode left: the conditional state must stay physical
+                    sq = u(0.3, 3.0)
+                    opts += [(lambda: pq.HomodyneMeasurement(phi=u(0, 3)), m2), (lambda: pq.HeterodyneMeasurement(), m2),
+                             (lambda: pq.GeneraldyneMeasurement(detection_covariance=np.diag([sq, 1 / sq])), m2),
+                             (lambda: pq.HomodyneMeasurement(phi=u(0, 3)), m2), (lambda: pq.GeneraldyneMeasurement(detection_covariance=np.diag([sq, 1 / sq])), m2)]
         elif kind in ("PureFock", "Fock"):
             opts = [(lambda: pq.Phaseshifter(phi=u(0, 3)), m1), (lambda: pq.Kerr(xi=u(0, 2)), m1)]
             if m2:
@@ -160,6 +166,8 @@ def monitor(ctx, n_programs):
     for it in range(n_programs):
         kind = list(sims)[it % len(sims)]
         d = int(rng.integers(1, 4)) if not kind.startswith("Fermionic") else int(rng.integers(2, 5))
+        if kind == "Gaussian":
+            d = int(rng.choice([1, 2, 3, 3]))
         cutoff = int(rng.integers(1, 7))
         if kind == "FermionicPureFock":
             cutoff = d + 1      # the full fermionic Fock space (particle-number changing gates need it)
@@ -188,6 +196,9 @@ def monitor(ctx, n_programs):
                 res = sims[kind](d=d, config=pq.Config(cutoff=cutoff, hbar=hbar, seed_sequence=int(rng.integers(1, 10 ** 6)))).execute(pq.Program(instructions=prefix), shots=shots)
             except Exception as e:
                 nm = type(e).__name__
+                if nm == "InvalidState" and k >= 2 and kind == "Gaussian":
+                    # every generated gate, channel and measurement is valid: the simulator itself found its state unphysical
+                    fails.append((f"{kind}:unphysical-state-raised:{type(last).__name__}", f"{kind}: {type(last).__name__} on modes {tuple(last.modes)} made the state unphysical (InvalidState: {str(e)[:80]})", desc)); break
                 if nm in ("InvalidSimulation", "InvalidParameter", "InvalidState", "InvalidModes", "NotImplementedCalculation", "InvalidInstruction") or (nm == "ValueError" and "not active" in str(e)):
                     break   # the generator produced a program outside the simulator's support: not this property's business
                 fails.append((f"{kind}:raise:{nm}", f"{kind}: prefix of length {k} raised {nm}: {str(e)[:100]}", desc)); break
@@ -204,6 +215,13 @@ def monitor(ctx, n_programs):
                 fails.append((f"{kind}:branch-weights>1", f"{kind}: branch weights sum to {wsum} after {where}", desc))
             if is_meas:
                 measured_mid = True
+            if type(last).__name__ == "PostSelectPhotons":
+                # post-selection on an outcome of probability zero leaves no state at all: nothing further to require
+                try:
+                    if all(b.state is None or abs(float(np.real(b.state.norm))) < 1e-12 for b in res.branches):
+                        break
+                except Exception:
+                    pass
         # number-conserving programs preserve the norm exactly on PureFock (no measurement, no active gate)
         if kind == "PureFock" and not any(isinstance(x, Measurement) or type(x).__name__ in ("Squeezing", "Displacement", "CubicPhase") for x in built):
             try:
@@ -213,6 +231,42 @@ def monitor(ctx, n_programs):
             except Exception:
                 pass
     ctx.notes["prefix_executions"] = dist
+    return fails
+
+
+def dyne_physicality(ctx, n):
+    """several modes of an entangled Gaussian state measured at once (homodyne / heterodyne / general-dyne): the
+    conditional state of the remaining modes must be a physical Gaussian state, for every hbar"""
+    import piquasso as pq
+    rng = np.random.default_rng(ctx.seed + 88)
+    fails = []
+    for it in range(n):
+        d = int(rng.integers(3, 5))
+        hbar = float(rng.choice(HBARS))
+        u = lambda a, b: float(rng.uniform(a, b))
+        ins = [pq.Vacuum()]
+        for _ in range(int(rng.integers(2, 5))):
+            a, b = (int(x) for x in rng.choice(d, size=2, replace=False))
+            ins.append([lambda: pq.Squeezing2(r=u(0.2, 0.7), phi=u(0, 6)).on_modes(a, b), lambda: pq.Squeezing(r=u(0.2, 0.7), phi=u(0, 6)).on_modes(a),
+                        lambda: pq.Beamsplitter(theta=u(0.3, 1.3), phi=u(0, 6)).on_modes(a, b)][int(rng.integers(0, 3))]())
+        k = int(rng.integers(2, d))
+        modes = tuple(int(x) for x in rng.permutation(d)[:k])
+        sq = u(0.3, 3.0)
+        meas = [lambda: pq.HomodyneMeasurement(phi=u(0, 3)), lambda: pq.HeterodyneMeasurement(),
+                lambda: pq.GeneraldyneMeasurement(detection_covariance=np.diag([sq, 1 / sq]))][it % 3]().on_modes(*modes)
+        desc = {"d": d, "hbar": hbar, "program": [(type(i).__name__, tuple(i.modes), {k_: repr(v)[:40] for k_, v in i.params.items()}) for i in ins + [meas]]}
+        ctx.count(("dyne", it), nontrivial=True)
+        try:
+            res = pq.GaussianSimulator(d=d, config=pq.Config(hbar=hbar, seed_sequence=int(rng.integers(1, 10 ** 6)))).execute(pq.Program(instructions=ins + [meas]), shots=1)
+        except Exception as e:
+            if type(e).__name__ == "InvalidState":
+                fails.append((f"Gaussian:unphysical-state-raised:{type(meas).__name__}", f"Gaussian: {type(meas).__name__} on modes {modes} made the state unphysical (InvalidState: {str(e)[:80]})", desc))
+            else:
+                fails.append((f"Gaussian:dyne-raise:{type(e).__name__}", f"{type(e).__name__}: {str(e)[:120]}", desc))
+            continue
+        for b in res.branches:
+            if b.state is not None:
+                check_state(pq, b.state, "Gaussian", f"{type(meas).__name__}{modes}", desc, fails, pure_expected=None)
     return fails
 
 
@@ -237,7 +291,7 @@ def run(ctx):
     if mism:
         ctx.broken.append("correspondence:Model/Gauss vs GaussianSimulator")
         ctx.notes["first_mismatches"] = [dict(sequence=repr(m[0])[:300], what=m[1]) for m in mism[:3]]
-    fails = monitor(ctx, n) + f07
+    fails = monitor(ctx, n) + dyne_physicality(ctx, 15 if quick else 300) + f07
     seen = set()
     for key, msg, inp in fails:
         if key not in seen:
